@@ -189,6 +189,15 @@ impl Sys {
         msgs.push(last);
         msgs.push((0..n).map(|i| (3 + 5 * i as u64 + seed % 3) % t).collect());
         msgs.push((0..n).map(|i| t - 1 - (i as u64 % 2)).collect());
+        // tiny (N, t): the complete plaintext space
+        if (t as f64).powi(n as i32) <= 32.0 {
+            msgs.clear();
+            let total = t.pow(n as u32);
+            for code in 0..total {
+                let mut c = code;
+                msgs.push((0..n).map(|_| { let d = c % t; c /= t; d }).collect());
+            }
+        }
         // plain operands: the same plus upper-half monomial, lower-half monomial of high degree, short constant
         let mut plains = msgs.clone();
         let mut mono_hi = vec![0u64; n];
@@ -1132,6 +1141,11 @@ impl AnySection for E2Section {
                 for k in 2..=5usize {
                     trs.push(Tr::MulMany((0..k).map(|i| (2 * i + 2) % r0).collect()));
                 }
+                for k in [4usize, 5, 8] {
+                    for off in 0..r0.min(6) {
+                        trs.push(Tr::AddMany((0..k).map(|i| (off + 5 * i + 1) % r0).collect()));
+                    }
+                }
             }
             if rep.cfg.remaining().as_secs_f64() < 5.0 {
                 capped = true;
@@ -1338,6 +1352,9 @@ pub fn param_sets(cfg: &RunCfg) -> Vec<(String, ParamSpec, usize, bool)> {
     let mut sp = ParamSpec::new(Scheme::BGV, 4, chain(4, &[60, 60, 60]), 17);
     sp.special_enc = true;
     v.push(("bgv_p8_spenc".to_string(), sp, 2, true));
+    // complete plaintext space for a tiny (N, t)
+    v.push(("bfv_p13_all_plaintexts".to_string(), ParamSpec::new(Scheme::BFV, 2, chain(2, &[40, 40, 40]), 5), 1, true));
+    v.push(("bgv_p14_all_plaintexts".to_string(), ParamSpec::new(Scheme::BGV, 2, chain(2, &[40, 40, 40]), 5), 1, true));
     // short chains: programs run the budget down to zero
     v.push(("bfv_p11_short".to_string(), ParamSpec::new(Scheme::BFV, 4, chain(4, &[30, 27, 30]), 17), 2, true));
     v.push(("bgv_p12_short".to_string(), ParamSpec::new(Scheme::BGV, 4, chain(4, &[40, 30, 40]), 17), 2, true));
